@@ -224,12 +224,17 @@ class C10(Harness):
         env = dict(os.environ)
         env['CARGO_NET_OFFLINE'] = 'true'
         env.pop('RUSTFLAGS', None)
-        tgt = os.path.join(scratch, 'kani-target')
+        # one cargo target directory per tree under test: concurrent checks of different trees must not wait for each
+        # other's cargo lock (a seeded tree checked while /repo is being checked made Kani time out once)
+        tgt = os.path.join(scratch, 'kani-target' if repo == '/repo' else 'kani-target-' + hashlib.sha1(repo.encode()).hexdigest()[:10])
         os.makedirs(tgt, exist_ok=True)
-        cmd = 'ulimit -v 12000000; exec timeout 600 cargo kani --harness b1_single_char_width --target-dir %s' % tgt
+        cmd = 'ulimit -v 12000000; exec timeout 900 cargo kani --harness b1_single_char_width --target-dir %s' % tgt
         import time
-        return {'p': subprocess.Popen(['bash', '-c', cmd], cwd=crate, env=env, stdout=subprocess.PIPE,
-                                      stderr=subprocess.STDOUT, text=True), 't0': time.time(), 'crate': crate}
+        bg = {'cmd': cmd, 'crate': crate, 'env': env, 'tgt': tgt, 'scratch_tgt': repo != '/repo', 'tries': 1}
+        bg['p'] = subprocess.Popen(['bash', '-c', cmd], cwd=crate, env=env, stdout=subprocess.PIPE,
+                                   stderr=subprocess.STDOUT, text=True)
+        bg['t0'] = time.time()
+        return bg
 
     def finish_background(self, bg):
         import re
@@ -247,8 +252,21 @@ class C10(Harness):
                'checks': (int(m.group(2)) if m else None), 'failed_checks': (int(m.group(1)) if m else None),
                'covers_satisfied': cov.group(0) if cov else None}
         status = 'ok' if ok else ('disagree' if failed else 'inconclusive')
+        if status == 'inconclusive' and bg.get('tries', 1) < 2:
+            # timed out / killed while engine A was using every core: once more, now that the machine is free
+            import subprocess
+            bg['tries'] = 2
+            bg['p'] = subprocess.Popen(['bash', '-c', bg['cmd']], cwd=bg['crate'], env=bg['env'], stdout=subprocess.PIPE,
+                                       stderr=subprocess.STDOUT, text=True)
+            bg['t0'] = time.time()
+            return self.finish_background(bg)
         if not ok:
             res['tail'] = out[-1500:]
+        res['attempts'] = bg.get('tries', 1)
+        if bg.get('scratch_tgt'):
+            import shutil
+            shutil.rmtree(bg['tgt'], ignore_errors=True)
+            shutil.rmtree(bg['crate'], ignore_errors=True)
         return status, res
 
 
